@@ -91,14 +91,27 @@ pub fn panic_msg(e: Box<dyn std::any::Any + Send>) -> String {
     }
 }
 
+/// Build a Regex the way users do: the flags by one of the public routes (see `Fl::regress_salted`), the pattern
+/// through from_unicode, or - when it is a string - with_flags / new. The route is a deterministic function of the pattern.
+pub fn construct(cps: &[u32], fl: Fl, no_opt: bool) -> Result<Regex, regress::Error> {
+    let salt = (crate::src::fnv(&cps.iter().flat_map(|c| c.to_le_bytes()).collect::<Vec<u8>>()) >> 7) as usize;
+    let flags = fl.regress_salted(no_opt, salt);
+    let text: Option<String> = if (salt >> 3) % 3 == 0 { cps.iter().map(|c| char::from_u32(*c)).collect() } else { None };
+    let plain = !(flags.icase || flags.multiline || flags.dot_all || flags.no_opt || flags.unicode || flags.unicode_sets);
+    match &text {
+        Some(t) if plain && (salt >> 5) % 2 == 0 => Regex::new(t),
+        Some(t) => Regex::with_flags(t, flags),
+        None => Regex::from_unicode(cps.iter().copied(), flags),
+    }
+}
+
 pub const COMPILE_FUEL: u64 = 2_000_000;
 
 /// Compile through the public API. Err(text) for a rejected pattern, panics are reported as Err("PANIC: ..").
 pub fn compile(cps: &[u32], fl: Fl, no_opt: bool) -> Result<Regex, String> {
     regress::verif::set_fuel(COMPILE_FUEL);
     // the flag string carries documented-as-ignored letters for a deterministic subset of the patterns
-    let salt = cps.len() + cps.first().copied().unwrap_or(0) as usize;
-    let r = catch_unwind(AssertUnwindSafe(|| Regex::from_unicode(cps.iter().copied(), fl.regress_salted(no_opt, salt))));
+    let r = catch_unwind(AssertUnwindSafe(|| construct(cps, fl, no_opt)));
     let rep = regress::verif::report();
     regress::verif::set_fuel(u64::MAX);
     if rep.exhausted {
